@@ -11,7 +11,7 @@
 //
 // One block per case:
 //   case <id> depth= width= aw= L= type= init= dev= mode= idle= memreset= ports=<n>
-//   port <i> R share=<j|->            read port; address pin shared with port j (declared earlier) or own
+//   port <i> R share=<j|-> xor=<bits|->   read port; address pin shared with port j (declared earlier) or own; pin = regs(data ^ xor)
 //   port <i> W cond=<0|1> rmw=<j|-> share=<j|->   write port; data = pin (xor async data of read port j)
 //   mem <w0> <w1> ...                 power-on contents, one 0/1/x string per word
 //   pre <ok|e>   post <ok|e reason>   whether simulation before / postprocess+simulation after worked (e = gatery threw; reason = hint text)
@@ -40,6 +40,7 @@ struct PortCfg {
 	bool cond = false;   // write under IF (en)
 	int rmw = -1;        // write data = pin ^ async data of that (earlier) read port
 	int share = -1;      // address pin shared with that earlier port
+	std::string outXor;  // read port: constant xor-ed onto the read data in front of the L registers (they must be retimed across it)
 };
 
 struct CaseCfg {
@@ -109,6 +110,7 @@ static void build(DesignScope &design, CaseCfg &c, Built &b) {
 		if (!p.isWrite) {
 			rdData[i] = mem[addrOf[i]];
 			UInt o = rdData[i];
+			if (!p.outXor.empty()) { std::string lit = std::to_string(c.width) + "b" + p.outXor; UInt k = lit.c_str(); o = o ^ k; }
 			for (size_t k = 0; k < c.L; k++) o = reg(o, {.allowRetimingBackward = true});
 			b.outPins.push_back(pinOut(o).setName("q" + std::to_string(i)).node());
 		} else {
@@ -236,6 +238,7 @@ static CaseCfg genCase(vh::Rng &rng, int mode) {
 		PortCfg p; p.isWrite = kinds[i];
 		if (i > 0 && rng.chance(1, 3)) p.share = (int) rng.below(i);
 		if (p.share >= 0 && c.ports[p.share].share >= 0) p.share = c.ports[p.share].share;
+		if (!p.isWrite && c.L > 0 && rng.chance(1, 4)) p.outXor = randBits(rng, c.width);
 		if (p.isWrite) {
 			p.cond = c.noReset ? rng.chance(3, 4) : true;
 			std::vector<int> earlierReads; for (size_t j = 0; j < i; j++) if (!c.ports[j].isWrite) earlierReads.push_back((int) j);
@@ -314,7 +317,9 @@ static void runCase(const std::string &id, vh::Rng &rng, size_t ncycles, int mod
 		const PortCfg &p = c.ports[i];
 		std::cout << "port " << i << (p.isWrite ? " W" : " R");
 		if (p.isWrite) std::cout << " cond=" << (p.cond ? 1 : 0) << " rmw=" << (p.rmw >= 0 ? std::to_string(p.rmw) : "-");
-		std::cout << " share=" << (p.share >= 0 ? std::to_string(p.share) : "-") << "\n";
+		std::cout << " share=" << (p.share >= 0 ? std::to_string(p.share) : "-");
+		if (!p.isWrite) std::cout << " xor=" << (p.outXor.empty() ? "-" : p.outXor);
+		std::cout << "\n";
 	}
 	std::cout << "mem"; for (auto &w : c.initWords) std::cout << ' ' << w; std::cout << "\n";
 	std::cout << "pre " << preRes << "\npost " << postRes << "\nnet " << netInfo << "\n";
